@@ -52,7 +52,13 @@ struct Spec {
     no_send: bool,
     n_args: usize,
     concrete: bool,
+    /// how the `async_trait` attribute is spelled (it is recognised by its name, whatever path leads to it)
+    at_spelling: usize,
 }
+
+/// `reexp` re-exports the attribute (the way `axum::async_trait` / a crate prelude does)
+const AT_SPELLINGS: [&str; 4] = ["#[::async_trait::async_trait]", "#[reexp::async_trait]", "#[self::reexp::async_trait]", "#[async_trait]"];
+const AT_PRELUDE: &str = "pub mod reexp { pub use ::async_trait::async_trait; }\nuse ::async_trait::async_trait;\n";
 
 impl Spec {
     fn ret_ty(&self, lt: &str) -> String {
@@ -193,7 +199,11 @@ fn build(spec: &Spec, negative: Option<&str>) -> (String, String) {
         }
         Kind::TraitStatic | Kind::TraitDynAsyncTrait => {
             let dynamic = spec.kind == Kind::TraitDynAsyncTrait;
-            let at = if dynamic { "#[::async_trait::async_trait]\n" } else { "" };
+            let at_owned = if dynamic { format!("{}\n", AT_SPELLINGS[spec.at_spelling % 4]) } else { String::new() };
+            let at = at_owned.as_str();
+            if dynamic {
+                src.push_str(AT_PRELUDE);
+            }
             let attr = if dynamic { format!("#[::entrait::entrait(delegate_by = ref{opt})]") } else { format!("#[::entrait::entrait({})]", opt.trim_start_matches(", ")) };
             let lt = if lts.is_empty() { String::new() } else { "<'a>".to_string() };
             let sup = if dynamic { ": Sync + 'static" } else { "" };
@@ -220,9 +230,11 @@ fn build(spec: &Spec, negative: Option<&str>) -> (String, String) {
             let msig_trait = format!("async fn m{}(&self{ps_src}){}", if lts.is_empty() { "" } else { "<'a>" }, spec.ret_decl());
             let attr = "#[::entrait::entrait(TrImpl, delegate_by = ref)]".to_string();
             src.push_str("pub trait HasName { fn name_ref(&self) -> &str; }\nimpl HasName for ::entrait::Impl<App> { fn name_ref(&self) -> &str { self.name.as_str() } }\n");
-            src.push_str(&format!("{attr}\n#[::async_trait::async_trait]\npub trait Tr {{\n    {msig_trait};\n}}\n"));
+            let at = AT_SPELLINGS[spec.at_spelling % 4];
+            src.push_str(AT_PRELUDE);
+            src.push_str(&format!("{attr}\n{at}\npub trait Tr {{\n    {msig_trait};\n}}\n"));
             src.push_str(&format!(
-                "pub struct X;\n#[::entrait::entrait(ref)]\n#[::async_trait::async_trait]\nimpl TrImpl for X {{\n    pub async fn m<{lt}D: HasName + Sync>(deps: &D{ps_src}){} {}\n}}\n",
+                "pub struct X;\n#[::entrait::entrait(ref)]\n{at}\nimpl TrImpl for X {{\n    pub async fn m<{lt}D: HasName + Sync>(deps: &D{ps_src}){} {}\n}}\n",
                 spec.ret_decl(),
                 spec.body("NOPE", hold_rc).replace("NOPE.name.as_str()", "deps.name_ref()").replace('\n', "\n    ")
             ));
@@ -268,7 +280,7 @@ pub fn gen_cases(t: &mut Tape) -> Vec<Case> {
     // `?Send` is meaningless together with async_trait (async_trait has its own `?Send` argument)
     let no_send = !matches!(kind, Kind::TraitDynAsyncTrait | Kind::ImplBlockDyn) && t.chance(1, 3);
     let arg_tys: Vec<&'static str> = (0..4).map(|_| *t.pick(&["i32", "u8", "bool", "String"])).collect();
-    let spec = Spec { arg_tys, kind, ret, no_send, n_args: t.range(1, 4), concrete };
+    let spec = Spec { arg_tys, kind, ret, no_send, n_args: t.range(1, 4), concrete, at_spelling: t.choose(4) };
     let mut classes: Vec<&'static str> = vec![match kind {
         Kind::Fn => "fn",
         Kind::Mod => "mod",
